@@ -808,6 +808,8 @@ def run(ck: Checker) -> None:
     ck.guard("R-REG-PAIR", lambda: r_reg_pair(ck))
     ck.guard("R-REG-OWN", lambda: r_reg_who(ck))
     ck.guard("R-REG-PAIR", lambda: r_no_exc_local(ck))
+    from . import state_rules as S3
+    ck.guard("R-REG-OWN", lambda: S3.r_memo_keeps_alive(ck, "R-REG-OWN", ("pyoak.typing", NODE, "pyoak.types"), "a cache entry would keep nodes alive and registered"))
     from . import templates_rules as T_
     ck.guard("R-REINSTALL", lambda: T_.r_reinstall(ck))  # detach reaches the children the class itself declares (no accessor inherited from a base class)
     from . import state_rules as S_
